@@ -171,7 +171,10 @@ func (c *syncMap) Walk(walkFn func(e Entry) error) (int, error) {
 	var lastErr error
 
 	c.data.Range(func(key, value interface{}) bool {
-		err := walkFn(value.(*TraitEntry))
+		v := value.(*TraitEntry) //nolint // Panic on type assertion failure is fine here.
+
+		// Passing a snapshot, expiration and counter of live entry may be updated concurrently.
+		err := walkFn(TraitEntry{K: v.K, V: v.V, E: atomic.LoadInt64(&v.E), C: atomic.LoadInt64(&v.C)})
 		if err != nil {
 			lastErr = err
 
